@@ -21,7 +21,7 @@ import (
 // A is of size k×n. This uses a blocked algorithm.
 //
 // work is temporary storage, and lwork specifies the usable memory length.
-// At minimum, lwork >= m if side == blas.Left and lwork >= n if side == blas.Right,
+// At minimum, lwork >= n if side == blas.Left and lwork >= m if side == blas.Right,
 // and this function will panic otherwise.
 // Dormlq uses a block algorithm, but the block size is limited
 // by the temporary space available. If lwork == -1, instead of performing Dormlq,
